@@ -9,6 +9,7 @@ Case:   (hist <lo> <hi> <uniq:0|1> <op>*)
        | (upd <a> <b>)                             UPDATE … SET id = b WHERE id = a
        | (alt <n>)                                 ALTER TABLE … AUTO_INCREMENT = n
        | (trunc)                                   TRUNCATE TABLE
+       | (rw)                                      table rewrite: ALTER TABLE … ADD COLUMN w … NOT NULL DEFAULT 7 / DROP COLUMN w
 Observation: per op  <res>|c=<counter>,<peek>|l=<last0>,<last1>|<id.tag,…>   joined by ';'
 -/
 
@@ -26,6 +27,7 @@ def parseOp : Sexp → Option Op
   | .list [.atom "upd", a, b] => do pure (.upd (← a.int?) (← b.int?))
   | .list [.atom "alt", n] => do pure (.alter (← n.nat?))
   | .list [.atom "trunc"] => some .trunc
+  | .list [.atom "rw"] => some .rewrite
   | _ => none
 
 def fmtRes : Res → String
@@ -66,6 +68,7 @@ def stepAcc (c : Cfg) (a : DAcc) (o : Op) : DAcc :=
       if hasFlag flags .alter_below_existing then some Region.alter_below_existing
       else if hasFlag flags .alter_below_counter then some Region.alter_below_counter
       else a.lastAlter
+    | .rewrite => if hasFlag flags .rewrite_lowers_counter then some Region.rewrite_lowers_counter else a.lastAlter
     | _ => a.lastAlter
   let viol :=
     match a.viol with
@@ -96,6 +99,12 @@ def stepAcc (c : Cfg) (a : DAcc) (o : Op) : DAcc :=
         if s'.last sess ≠ specLast (a.st.last sess) false [] then
           some (s!"last_insert_id@{k}",
             if hasFlag flags .failed_insert_sets_last_insert_id then "failed_insert_sets_last_insert_id" else "-")
+        else none
+      | .rewrite, _ =>
+        -- Spec: a rewrite keeps the counter (MySQL carries AUTO_INCREMENT over a table copy)
+        if s'.tbl.ctr < a.st.tbl.ctr then
+          some (s!"rewrite_lowers_counter@{k}",
+            if hasFlag flags .rewrite_lowers_counter then "rewrite_lowers_counter" else "-")
         else none
       | _, _ => none
   { st := s', obs := (fmtRes res ++ "|" ++ fmtState c s') :: a.obs, viol := viol, lastAlter := lastAlter }
